@@ -306,7 +306,8 @@ func (r *reader) Delete(rs *segment.RewriteSegment) (*reader, error) {
 		return nil, err
 	}
 
-	return r, nil
+	// r might be the reader of a writer that has rolled over in the meantime, never reuse it as is
+	return &reader{segment: r.segment, params: r.params, version: r.version}, nil
 }
 
 func (r *reader) getIndexNow() (indexer, error) {
